@@ -5,6 +5,7 @@ import PMV.Proofs.PyCoreImports
 import PMV.Proofs.PyCoreBindInst
 import PMV.Proofs.PyCoreRename2
 import PMV.Proofs.PyCoreHoist2
+import PMV.Proofs.PyCoreAnn
 /-
   C01 — With the default options a minified program behaves like the original.
   `Spec.PyCore` gives a first-order core of Python (ints, bools, strings, None; assignment, `if`,
@@ -107,14 +108,26 @@ theorem more_fuel_same_behaviour (n k : Nat) (m : Module) (h : (run n m).ending 
 
 /-- the switches whose transform is not covered by a PyCore theorem are off -/
 def CoreOnly (o : Opts) : Prop :=
-  o.annotations.any = false ∧ o.removeAsserts = false ∧ o.removeDebug = false
+  o.removeAsserts = false ∧ o.removeDebug = false
+
+/-- the module that reaches remove_annotations in the pipeline -/
+abbrev beforeAnnotations (o : Opts) (m : Module) : Module := beforeAnnotationsM o m
+
+/-- T01.17: annotation removal refines the behaviour (see `Proofs/PyCoreAnn.lean`): annotated names inside functions are
+    assigned like plain ones, a value-less annotation keeps the name local (`x: 0`); annotated `def`s and module-level
+    annotated assignments — whose annotations are evaluated — are outside the core.  Needs distinct module-level `def` names. -/
+theorem remove_annotations_preserves (a : AnnOpts) (n : Nat) (m : Module) (hnd : (defNames m.body).Nodup)
+    (hcore : (run n m).ending ≠ "stuck") : run n (removeAnnotations a m) = run n m :=
+  run_removeAnnotations a n m hnd hcore
 
 /-- T01.6: the modelled transform pipeline, restricted to the eight transforms covered above (any subset of
     them, in pipeline order), refines the observable behaviour of every module that stays inside the core. -/
 theorem pipeline_partial (t : Printer.PrecTable) (sp : Token.Spacing) (orc : Fold.Oracle) (el : List String)
-    (o : Opts) (ho : CoreOnly o) (n : Nat) (m : Module) (hcore : (run n m).ending ≠ "stuck") :
+    (o : Opts) (ho : CoreOnly o) (n : Nat) (m : Module)
+    (hN : o.annotations.any = true → (defNames (beforeAnnotations o m).body).Nodup)
+    (hcore : (run n m).ending ≠ "stuck") :
     run n (transformM t sp orc el o m) = run n m := by
-  obtain ⟨h2, h3, h4⟩ := ho
+  obtain ⟨h3, h4⟩ := ho
   let m1 := if o.removeLiteralStatements then removeLiteralStatements m else m
   have e1 : run n m1 = run n m := by
     show run n (if o.removeLiteralStatements then removeLiteralStatements m else m) = run n m
@@ -127,12 +140,20 @@ theorem pipeline_partial (t : Printer.PrecTable) (sp : Token.Spacing) (orc : Fol
     split
     · rw [combine_imports_preserves, e1]
     · exact e1
-  let m2 := if o.removePass then travModule removePass m1c else m1c
-  have e2 : run n m2 = run n m := by
-    show run n (if o.removePass then travModule removePass m1c else m1c) = run n m
+  have hm1c : m1c = beforeAnnotations o m := rfl
+  let m1a := if o.annotations.any then removeAnnotations o.annotations m1c else m1c
+  have e1a : run n m1a = run n m := by
+    show run n (if o.annotations.any then removeAnnotations o.annotations m1c else m1c) = run n m
     split
-    · rw [remove_pass_preserves, e1c]
+    · rename_i ha
+      rw [remove_annotations_preserves o.annotations n m1c (by rw [hm1c]; exact hN ha) (by rw [e1c]; exact hcore), e1c]
     · exact e1c
+  let m2 := if o.removePass then travModule removePass m1a else m1a
+  have e2 : run n m2 = run n m := by
+    show run n (if o.removePass then travModule removePass m1a else m1a) = run n m
+    split
+    · rw [remove_pass_preserves, e1a]
+    · exact e1a
   let m3 := if o.removeObjectBase then travModule removeObject m2 else m2
   have e3 : run n m3 = run n m := by
     show run n (if o.removeObjectBase then travModule removeObject m2 else m2) = run n m
@@ -162,7 +183,7 @@ theorem pipeline_partial (t : Printer.PrecTable) (sp : Token.Spacing) (orc : Fol
     · rw [convert_posargs_preserves n m6 (by rw [e6]; exact hcore), e6]
     · exact e6
   have hT : transformM t sp orc el o m = (if o.convertPosargs then removePosargs m6 else m6) := by
-    simp only [transformM, h2, h3, h4, Bool.false_eq_true, if_false, m6, m5, m4, m3, m2, m1c, m1]
+    simp only [transformM, h3, h4, Bool.false_eq_true, if_false, m6, m5, m4, m3, m2, m1a, m1c, m1]
   rw [hT]
   exact e7
 
@@ -234,6 +255,7 @@ example : scopeStable removeDebug ⟨[
 def beforeAsserts (o : Opts) (m : Module) : Module :=
   let m := if o.removeLiteralStatements then removeLiteralStatements m else m
   let m := if o.combineImports then travModule combineImports m else m
+  let m := if o.annotations.any then removeAnnotations o.annotations m else m
   let m := if o.removePass then travModule removePass m else m
   if o.removeObjectBase then travModule removeObject m else m
 
@@ -247,7 +269,8 @@ def beforeDebug (o : Opts) (m : Module) : Module :=
     behaviour, provided the statements that remove_asserts / remove_debug take out bind no function-local name
     (`scopeStable` of the module that reaches them; see T01.10). -/
 theorem pipeline_partial_under_O (t : Printer.PrecTable) (sp : Token.Spacing) (orc : Fold.Oracle) (el : List String)
-    (o : Opts) (h2 : o.annotations.any = false) (n : Nat) (m : Module)
+    (o : Opts) (n : Nat) (m : Module)
+    (hN : o.annotations.any = true → (defNames (beforeAnnotations o m).body).Nodup)
     (hA : o.removeAsserts = true → scopeStable removeAsserts (beforeAsserts o m) = true)
     (hD : o.removeDebug = true → scopeStable removeDebug (beforeDebug o m) = true)
     (hcore : (runO n m).ending ≠ "stuck") :
@@ -264,12 +287,20 @@ theorem pipeline_partial_under_O (t : Printer.PrecTable) (sp : Token.Spacing) (o
     split
     · rw [combine_imports_preserves_under_O, e1]
     · exact e1
-  let m2 := if o.removePass then travModule removePass m1c else m1c
-  have e2 : runO n m2 = runO n m := by
-    show runO n (if o.removePass then travModule removePass m1c else m1c) = runO n m
+  have hm1c : m1c = beforeAnnotations o m := rfl
+  let m1a := if o.annotations.any then removeAnnotations o.annotations m1c else m1c
+  have e1a : runO n m1a = runO n m := by
+    show runO n (if o.annotations.any then removeAnnotations o.annotations m1c else m1c) = runO n m
     split
-    · rw [remove_pass_preserves_under_O, e1c]
+    · rename_i ha
+      rw [runO_removeAnnotations o.annotations n m1c (by rw [hm1c]; exact hN ha) (by rw [e1c]; exact hcore), e1c]
     · exact e1c
+  let m2 := if o.removePass then travModule removePass m1a else m1a
+  have e2 : runO n m2 = runO n m := by
+    show runO n (if o.removePass then travModule removePass m1a else m1a) = runO n m
+    split
+    · rw [remove_pass_preserves_under_O, e1a]
+    · exact e1a
   let m3 := if o.removeObjectBase then travModule removeObject m2 else m2
   have e3 : runO n m3 = runO n m := by
     show runO n (if o.removeObjectBase then travModule removeObject m2 else m2) = runO n m
@@ -316,7 +347,7 @@ theorem pipeline_partial_under_O (t : Printer.PrecTable) (sp : Token.Spacing) (o
     · rw [show runO n (removePosargs m8) = runO n m8 from runO_map posMap pos_exprOK n m8 (by rw [e8]; exact hcore), e8]
     · exact e8
   have hT : transformM t sp orc el o m = (if o.convertPosargs then removePosargs m8 else m8) := by
-    simp only [transformM, h2, Bool.false_eq_true, if_false, m8, m7, m6, m5, m4, m3, m2, m1c, m1]
+    simp only [transformM, m8, m7, m6, m5, m4, m3, m2, m1a, m1c, m1]
   rw [hT]
   exact e9
 
@@ -335,10 +366,11 @@ theorem local_renaming_preserves_under_O (R : RenTable) (m : Module) (h : modOK 
     refines the behaviour of every module that stays inside the core -/
 theorem pipeline_then_renaming (t : Printer.PrecTable) (sp : Token.Spacing) (orc : Fold.Oracle) (el : List String)
     (o : Opts) (ho : CoreOnly o) (R : RenTable) (n : Nat) (m : Module)
+    (hN : o.annotations.any = true → (defNames (beforeAnnotations o m).body).Nodup)
     (hR : modOK R (transformM t sp orc el o m) = true) (hcore : (run n m).ending ≠ "stuck") :
     run n (renModule R (transformM t sp orc el o m)) = run n m := by
   rw [local_renaming_preserves R _ hR n]
-  exact pipeline_partial t sp orc el o ho n m hcore
+  exact pipeline_partial t sp orc el o ho n m hN hcore
 
 /-! non-vacuity: `def f(a): b = a + 1; print(b); return b` / `print(f(1))` with `a ↦ A` (copied), `b ↦ B` satisfies the
     condition; mapping `b` onto the parameter `a` does not. -/
@@ -364,17 +396,36 @@ example : modOK badRenaming renamingWitness = false := by decide
 theorem hoisting_preserves (w : HoistW) (m : Module) (h : hoistOK w m = true) (n : Nat) :
     ObsEq (gnames w.gmod) (run n (hoistModule w m)) (run n m) := run_hoistModule w m h n
 
-/-- T01.15: `minify()` with its default options on the core — the statement-level transforms and constant folding, then
+/-- T01.15: `minify()` with its default options on the core — the statement-level transforms (annotation removal included) and constant folding, then
     the renaming of function locals, then the hoisting of literals — refines the behaviour of every module that stays
     inside the core, up to the global names introduced for hoisted literals. -/
 theorem minify_core_preserves (t : Printer.PrecTable) (sp : Token.Spacing) (orc : Fold.Oracle) (el : List String)
     (o : Opts) (ho : CoreOnly o) (R : RenTable) (w : HoistW) (n : Nat) (m : Module)
+    (hN : o.annotations.any = true → (defNames (beforeAnnotations o m).body).Nodup)
     (hR : modOK R (transformM t sp orc el o m) = true)
     (hW : hoistOK w (renModule R (transformM t sp orc el o m)) = true)
     (hcore : (run n m).ending ≠ "stuck") :
     ObsEq (gnames w.gmod) (run n (hoistModule w (renModule R (transformM t sp orc el o m)))) (run n m) := by
   have h1 := hoisting_preserves w _ hW n
-  rw [pipeline_then_renaming t sp orc el o ho R n m hR hcore] at h1
+  rw [pipeline_then_renaming t sp orc el o ho R n m hN hR hcore] at h1
+  exact h1
+
+theorem hoisting_preserves_under_O (w : HoistW) (m : Module) (h : hoistOK w m = true) (n : Nat) :
+    ObsEq (gnames w.gmod) (runO n (hoistModule w m)) (runO n m) := runO_hoistModule w m h n
+
+/-- T01.16: the same chain under `python -O` semantics, now with remove_asserts and remove_debug in the pipeline (every
+    transform of the pipeline), then renaming, then hoisting -/
+theorem minify_core_preserves_under_O (t : Printer.PrecTable) (sp : Token.Spacing) (orc : Fold.Oracle) (el : List String)
+    (o : Opts) (R : RenTable) (w : HoistW) (n : Nat) (m : Module)
+    (hN : o.annotations.any = true → (defNames (beforeAnnotations o m).body).Nodup)
+    (hA : o.removeAsserts = true → scopeStable removeAsserts (beforeAsserts o m) = true)
+    (hD : o.removeDebug = true → scopeStable removeDebug (beforeDebug o m) = true)
+    (hR : modOK R (transformM t sp orc el o m) = true)
+    (hW : hoistOK w (renModule R (transformM t sp orc el o m)) = true)
+    (hcore : (runO n m).ending ≠ "stuck") :
+    ObsEq (gnames w.gmod) (runO n (hoistModule w (renModule R (transformM t sp orc el o m)))) (runO n m) := by
+  have h1 := hoisting_preserves_under_O w _ hW n
+  rw [local_renaming_preserves_under_O R _ hR n, pipeline_partial_under_O t sp orc el o n m hN hA hD hcore] at h1
   exact h1
 
 /-! non-vacuity: `def f(a): print('lit', 'lit', a); return None` / `print('lit')` / `r = f(None)` with the string held by a
